@@ -25,15 +25,18 @@
 (*   S   local variable that is assigned with set! (lives in a heap cell) *)
 (*   B   contents of a box            C   variable captured by a closure   *)
 (*   PR  value of a parameter object (make-parameter) inside parameterize  *)
-(*   EL / EP / EV / EI / EH / ES / EM   element of a list / car of a pair  *)
-(*       / slot of a mutable vector / of an immutable vector / value of a  *)
-(*       hash map / field of an immutable / of a mutable struct instance   *)
+(*   RA  element of the rest-argument list of a variadic lambda            *)
+(*   EL / EP / EV / EI / EH / EK / ES / EM   element of a list / car of a  *)
+(*       pair / slot of a mutable vector / of an immutable vector / value  *)
+(*       of a hash map / KEY of a hash map / field of an immutable / of a  *)
+(*       mutable struct instance                                           *)
 (*   K   local of a frame captured by a continuation: the straight-line    *)
 (*       code may use it once (at its last use, so it is moved), and it is *)
 (*       still observed afterwards by RE-ENTERING the continuation         *)
-(*   WL / WM   local (not moved / moved at its only use) of a second       *)
-(*       native thread; values cross through a channel ("chan") or through *)
-(*       the closure given to spawn-native-thread ("capt")                 *)
+(*   WL / WM / WE   local (not moved / moved at its only use) / element of *)
+(*       a list held by a local of a second native thread; values cross    *)
+(*       through a channel ("chan") or through the closure given to        *)
+(*       spawn-native-thread ("capt")                                      *)
 (* Several aliases may hold the same object (action Share), which is how   *)
 (* "the updated reference is at its last use but a global / closure /      *)
 (* container / continuation / other thread still holds the value" arises.  *)
@@ -351,10 +354,24 @@ Bases == [
               [v |-> Coll("str", << >>, {}), src |-> "(string)", how |-> "fresh"],
               [v |-> Coll("str", <<"a", "b", "c">>, {}), src |-> "\"abc\"", how |-> "const"] >> ]
 
+\* later base values (action "base" after the first one) are DIFFERENT values, so that binary updates of two
+\* aliases are distinguishable from updates of one
+Bases2 == [
+  hash |-> << [v |-> Coll("hash", << >>, {<<5, 50>>, <<1, 11>>}), src |-> "(hash 5 50 1 11)", how |-> "fresh"],
+              [v |-> Coll("hash", << >>, {}), src |-> "(hash)", how |-> "fresh"] >>,
+  hset |-> << [v |-> Coll("hset", << >>, {5, 1}), src |-> "(hashset 5 1)", how |-> "fresh"],
+              [v |-> Coll("hset", << >>, {}), src |-> "(hashset)", how |-> "fresh"] >>,
+  ivec |-> << [v |-> Coll("ivec", <<4, 5>>, {}), src |-> "(immutable-vector 4 5)", how |-> "fresh"],
+              [v |-> Coll("ivec", <<4, 5>>, {}), src |-> "'#(4 5)", how |-> "const"] >>,
+  list |-> << [v |-> Coll("list", <<4, 5>>, {}), src |-> "(list 4 5)", how |-> "fresh"],
+              [v |-> Coll("list", <<4, 5>>, {}), src |-> "'(4 5)", how |-> "const"] >>,
+  str  |-> << [v |-> Coll("str", <<"d", "e">>, {}), src |-> "(string-append \"d\" (opaque \"e\"))", how |-> "fresh"],
+              [v |-> Coll("str", <<"d", "e">>, {}), src |-> "\"de\"", how |-> "const"] >> ]
+
 -----------------------------------------------------------------------------
 (* Holder kinds *)
-AllKinds == {"G", "P", "L", "M", "S", "B", "C", "EL", "EP", "EV", "EI", "EH", "ES", "EM", "PR", "K", "WL", "WM"}
-Th(kind) == IF kind \in {"WL", "WM"} THEN 1 ELSE 0           \* 0: the engine thread, 1: the second thread
+AllKinds == {"G", "P", "L", "M", "S", "B", "C", "RA", "EL", "EP", "EV", "EI", "EH", "EK", "ES", "EM", "PR", "K", "WL", "WM", "WE"}
+Th(kind) == IF kind \in {"WL", "WM", "WE"} THEN 1 ELSE 0           \* 0: the engine thread, 1: the second thread
 SingleUse(kind) == kind \in {"M", "WM", "K"}
 Alias(v, kind, born) == [v |-> v, kind |-> kind, born |-> born, dead |-> 0, used |-> FALSE]
 Live(a) == a.dead = 0
@@ -379,7 +396,7 @@ Keep(n) == IF n = 1 THEN KEEP1 ELSE IF n = 2 THEN KEEP2 ELSE KEEPR
 SrcTh(a, i) == IF a = "base" THEN 0 ELSE Th(al[i].kind)
 Heads(n) ==
      (IF "base" \in ACTS /\ NBases < MAXBASE
-      THEN UNION {{Choice("base", 0, 0, b, kd, "-", x, NoOp) : b \in 1..Len(Bases[ty]), x \in Xfers(0, kd)} : kd \in KindsAt(n)}
+      THEN UNION {{Choice("base", 0, 0, b, kd, "-", x, NoOp) : b \in 1..Len(Bases2[ty]), x \in Xfers(0, kd)} : kd \in KindsAt(n)}
       ELSE {})
   \cup (IF "share" \in ACTS
         THEN UNION {UNION {{Choice("share", i, 0, 0, kd, "-", x, NoOp) : x \in Xfers(Th(al[i].kind), kd)}
@@ -408,7 +425,7 @@ Tails(h) == UNION {{[h EXCEPT !.op = op, !.via = v] : v \in ViasFor(h.i, op, h.k
 \* the tails of every kept "upd" head
 Mx(a, b) == (a * 251 + b) % 9973
 KindIdx == [G |-> 1, P |-> 2, L |-> 3, M |-> 4, B |-> 5, C |-> 6, EL |-> 7, EP |-> 8, EV |-> 9, EI |-> 10, EH |-> 11,
-            ES |-> 12, K |-> 13, WL |-> 14, WM |-> 15, S |-> 16, EM |-> 17, PR |-> 18]
+            ES |-> 12, K |-> 13, WL |-> 14, WM |-> 15, S |-> 16, EM |-> 17, PR |-> 18, RA |-> 19, EK |-> 20, WE |-> 21]
 KindCode(kd) == IF kd = "-" THEN 0 ELSE KindIdx[kd]
 ActCode(a) == CASE a = "base" -> 1 [] a = "share" -> 2 [] a = "upd" -> 3 [] a = "upd2" -> 4 [] a = "reobs" -> 5
 XferCode(x) == CASE x = "-" -> 0 [] x = "chan" -> 1 [] x = "capt" -> 2
@@ -425,7 +442,7 @@ Offered(n) == LET hs == {h \in Heads(n) : Kept(HeadCode(h), n) /\ (h.a = "upd2" 
 
 -----------------------------------------------------------------------------
 (* The state machine *)
-NewVal(ch) == CASE ch.a = "base"  -> Bases[ty][ch.b].v
+NewVal(ch) == CASE ch.a = "base"  -> Bases2[ty][ch.b].v
                 [] ch.a = "share" -> al[ch.i].v
                 [] ch.a = "upd"   -> Step(al[ch.i].v, ch.op, ch.op.a)
                 [] ch.a = "upd2"  -> Step2(al[ch.i].v, al[ch.i2].v)
@@ -538,8 +555,8 @@ Pre(h) == CASE h.a = "upd" /\ h.via = "k" -> <<Obs(Step(al[h.i].v, h.op, h.op.al
             [] h.a = "reobs"              -> <<Obs(al[h.i].v)>>
             [] OTHER                      -> << >>
 ActOut(h) == [a |-> h.a, i |-> h.i, i2 |-> h.i2, j |-> h.j, kind |-> h.kind, via |-> h.via, xfer |-> h.xfer,
-              src  |-> IF h.a = "base" THEN Bases[ty][h.b].src ELSE "",
-              how  |-> IF h.a = "base" THEN Bases[ty][h.b].how ELSE "",
+              src  |-> IF h.a = "base" THEN (IF h.j = 1 THEN Bases[ty][h.b].src ELSE Bases2[ty][h.b].src) ELSE "",
+              how  |-> IF h.a = "base" THEN (IF h.j = 1 THEN Bases[ty][h.b].how ELSE Bases2[ty][h.b].how) ELSE "",
               tpl  |-> IF h.a = "upd" THEN Tpl(ty, h.op) ELSE IF h.a = "upd2" THEN Tpl2(ty) ELSE "",
               arg  |-> IF h.a = "upd" THEN ArgSrc(ty, h.op, h.op.a) ELSE "",
               alt  |-> IF h.a = "upd" THEN ArgSrc(ty, h.op, h.op.alt) ELSE "",
